@@ -1283,7 +1283,12 @@ orc_compiler_rewrite_vars2 (OrcCompiler *compiler)
       else
         dest = compiler->insns[j].dest_args[1];
 
-      if (compiler->vars[src1].last_use == j) {
+      /* a rule may read its second operand after it has written dest, so
+       * dest must not share a register with it: no chaining when the same
+       * variable is also the second (or third) operand */
+      if (compiler->vars[src1].last_use == j &&
+          compiler->insns[j].src_args[1] != src1 &&
+          compiler->insns[j].src_args[2] != src1) {
         if (compiler->vars[src1].first_use == j) {
           k = orc_compiler_allocate_register (compiler, TRUE);
           compiler->vars[src1].alloc = k;
